@@ -74,6 +74,51 @@ template <class W> void touch_all(W const& v) {
         }
     }
     rw(v.front()); rw(v.back());
+    // backward and mixed random-access jumps that land on every pixel (1-D, x and y iterators, locators)
+    {
+        typename W::iterator b = v.begin(), e = v.end();
+        for (long i = 0; i < n; ++i) {
+            rw(*(e - (n - i)));
+            rw(e[-(n - i)]);
+            { typename W::iterator t = e; t -= (n - i); rw(*t); }
+            long j = (i * 7 + 3) % n;                      // from another in-range position, either direction
+            rw((b + j)[i - j]);
+            { typename W::iterator t = b + j; t += (i - j); rw(*t); }
+            rw(v.rbegin()[n - 1 - i]);
+        }
+        for (long y = 0; y < h; ++y) for (long x = 0; x < w; ++x) {
+            rw(*(v.row_end(y) - (w - x)));
+            rw(v.row_end(y)[-(w - x)]);
+            rw(*(v.col_end(x) - (h - y)));
+            rw(v.col_end(x)[-(h - y)]);
+            typename W::xy_locator last = v.xy_at(w - 1, h - 1);
+            rw(last(x - (w - 1), y - (h - 1)));
+            rw(*(last - point_t((w - 1) - x, (h - 1) - y)));
+        }
+    }
+}
+// the std algorithms GIL overloads for its 1-D iterators, on ranges that start and end in the middle of a row
+template <class W> void range_algorithms(W const& v) {
+    typedef typename W::value_type val_t;
+    const long n = (long)v.size();
+    if (n < 2) return;
+    val_t px; pt::set_pix(px, pt::pattern_pix(vh::seed(), 9, 3, 1, pt::nch<val_t>::value));
+    std::vector<val_t> buf((size_t)n, px);
+    const long w = v.width();
+    const long starts[] = {0, 1, w / 2, w - 1, w, w + 1};
+    for (long a : starts) {
+        if (a < 0 || a >= n) continue;
+        const long ends[] = {n, n - 1, a + 1, a + w, a + w + 1, n - w / 2};
+        for (long e : ends) {
+            if (e <= a || e > n) continue;
+            std::fill(v.begin() + a, v.begin() + e, px);
+            std::copy(v.begin() + a, v.begin() + e, buf.begin());
+            std::copy(buf.begin(), buf.begin() + (e - a), v.begin() + a);
+            g_sink += std::equal(v.begin() + a, v.begin() + e, buf.begin());
+            std::for_each(v.begin() + a, v.begin() + e, rw_fn());
+            n_touch += 5 * (uint64_t)(e - a);
+        }
+    }
 }
 
 // pixel algorithms over the view, with a plain interleaved twin image of the view's value type
@@ -104,7 +149,7 @@ struct visitor {
     bool algos;
     template <class W> void operator()(W const& d, mapping const& m) {
         touch_all(d);
-        if (algos || m.steps.size() <= 1) { algorithms(d); self_equal(d); }
+        if (algos || m.steps.size() <= 1) { algorithms(d); self_equal(d); range_algorithms(d); }
         channel(d, m, std::integral_constant<bool, (ORG <= 11 || ORG >= 25)>());
     }
     template <class W> void channel(W const& d, mapping const& m, std::true_type) {
